@@ -106,6 +106,7 @@ struct fdinfo {
   long off;
   int sticky_errno;
   int sticky_rule;
+  int last_eintr;
   long calls_r, calls_w;
   char rel[RELMAX];
 };
@@ -425,6 +426,7 @@ static int nth_rule(int kind, const char *target) {
 }
 
 /* ------------------------------------------------------------------ open family */
+static int g_last_open_eintr = 0;
 static int do_open(int dirfd, const char *path, int flags, mode_t mode, const char *sym) {
   vsim_init();
   char rel[RELMAX];
@@ -435,6 +437,8 @@ static int do_open(int dirfd, const char *path, int flags, mode_t mode, const ch
   int writable = (flags & O_ACCMODE) != O_RDONLY;
   int isdir = (flags & O_DIRECTORY) != 0;
   int ri = nth_rule(K_EINTR_OPEN, rel);
+  if (ri >= 0 && g_last_open_eintr) ri = -1; /* (same rule for open: never twice in a row) */
+  g_last_open_eintr = ri >= 0;
   if (ri < 0 && !isdir) ri = nth_rule(writable ? K_OPENW : K_OPENR, rel);
   if (ri < 0 && isdir) ri = nth_rule(K_OPENDIR, rel);
   if (ri >= 0) {
@@ -542,7 +546,11 @@ static size_t transfer_gate(int fd, size_t len, int is_write, int *err, int *rul
     }
   }
   int ri = nth_rule(is_write ? K_EINTR_WRITE : K_EINTR_READ, f->rel);
-  if (ri >= 0) { *err = EINTR; *rule = ri; return 0; }
+  /* never two injected EINTRs in a row on one descriptor: two "every other call" rules that
+   * match the same descriptor can get out of phase and would then interrupt every single call -
+   * a storm no kernel produces, under which any correct retry loop spins for ever */
+  if (ri >= 0 && !f->last_eintr) { f->last_eintr = 1; *err = EINTR; *rule = ri; return 0; }
+  f->last_eintr = 0;
   /* `tread:<path>:+k:<errno>`: a *transient* read error - once, at the first read at or after
    * byte k of a matching file (the bytes before k are delivered first), a read fails with
    * ETIMEDOUT / EAGAIN / EIO; every later read works (a flaky network mount). A tool may report
